@@ -1703,7 +1703,15 @@ func (g *functionGenerator) genNext(inst *ssa.Next) (insts []wat.Inst, ret_type 
 		return g.module.EmitGenNext_String(iter)
 	} else {
 		t := inst.Type().(*types.Tuple)
-		return g.module.EmitGenNext_Map(iter, g.tLib.compile(t.At(1).Type()), g.tLib.compile(t.At(2).Type()))
+		kt, vt := t.At(1).Type(), t.At(2).Type()
+		// An unused key or value has the invalid type (`for range m`, `for k := range m`):
+		// the iterator still yields both, so take their types from the map itself.
+		if r, ok := inst.Iter.(*ssa.Range); ok {
+			if mt, ok := r.X.Type().Underlying().(*types.Map); ok {
+				kt, vt = mt.Key(), mt.Elem()
+			}
+		}
+		return g.module.EmitGenNext_Map(iter, g.tLib.compile(kt), g.tLib.compile(vt))
 	}
 }
 
